@@ -585,6 +585,14 @@ def _r4(chk, repo):
         if p is None or p.setter is None:
             raise AnchorError(f"{ci.qual}: no proposal setter")
         fn = p.setter
+        from .common import canon_keep
+        try:
+            fn_in = canon_keep(repo, ci, p.setter, keep={"validate_proposal"})       # a private "validate or restore" helper inlined
+            if any(isinstance(n_, ast.Assign) and path_of(n_.targets[0]) == "self._proposal" for n_ in ast.walk(fn_in)) and \
+                    not any(isinstance(n_, ast.Try) for n_ in ast.walk(fn)) and any(isinstance(n_, ast.Try) for n_ in ast.walk(fn_in)):
+                fn = fn_in
+        except Exception:
+            pass
         g = CFG(fn)
         vparam = func_params(fn)[1]
         problems = []
